@@ -45,6 +45,11 @@ pub struct EventCase {
     /// whether the verifier knows the extra signer's key
     pub extra_key_known: bool,
     pub post: Post,
+    /// what the event carries before hash_and_sign_event: 0 nothing; 1 a stale `hashes.sha256`
+    /// string; 2 the hash of different content plus another algorithm's entry; 3 `hashes: {}`;
+    /// 4 hashes and signatures left over from hashing+signing an earlier version of the event
+    #[serde(default)]
+    pub prior: u8,
 }
 
 fn server_of_user(u: &str) -> Option<&str> {
@@ -131,6 +136,36 @@ pub fn oracle(c: &EventCase, cx: &mut CaseCtx) -> Result<(), String> {
     // sign
     let mut obj = to_obj(&e);
     let kid = format!("ed25519:{}", c.key_version);
+    match c.prior % 5 {
+        0 => {}
+        1 => {
+            obj.insert("hashes".into(), to_obj(&[("sha256".to_owned(), V::Str("c3RhbGUgaGFzaA".into()))].into_iter().collect()).into());
+        }
+        2 => {
+            let other = b64(&vf_ref::hash::sha256(b"{}"), false);
+            obj.insert("hashes".into(), to_obj(&[("sha256".to_owned(), V::Str(other)), ("md5".to_owned(), V::Str("AAAA".into()))].into_iter().collect()).into());
+        }
+        3 => {
+            obj.insert("hashes".into(), to_obj(&BTreeMap::new()).into());
+        }
+        _ => {
+            // hash + sign an earlier version (one more hashed top-level key), then edit
+            let mut pre = e.clone();
+            pre.insert("zz_earlier_version".into(), V::Int(1));
+            let mut pre_obj = to_obj(&pre);
+            for s in &signers {
+                let kp = Ed25519KeyPair::from_der(&der(&c.seeds[idx(s)?], c.der_form), c.key_version.clone()).map_err(|e| format!("from_der: {e}"))?;
+                hash_and_sign_event(s, &kp, &mut pre_obj, &rules.redaction).map_err(|e2| format!("hash_and_sign_event failed on a well-formed event (v{v}): {e2}"))?;
+            }
+            for k in ["hashes", "signatures"] {
+                if let Some(x) = pre_obj.remove(k) {
+                    obj.insert(k.into(), x);
+                }
+            }
+        }
+    }
+    cx.class_if(c.prior % 5 != 0, "event_carried_hashes_before_signing");
+    cx.class_if(c.prior % 5 == 4, "rehash_and_resign_after_edit");
     let mut map = PublicKeyMap::new();
     for s in &signers {
         let seed = &c.seeds[idx(s)?];
@@ -336,7 +371,7 @@ pub fn run(ck: &mut Check) {
         "sign_verify_events",
         n,
         move || {
-            (pdu::pdu(), any::<[[u8; 32]; 3]>(), 0u8..3, "[A-Za-z0-9_]{1,6}", any::<bool>(), any::<bool>(), post()).prop_map(|(pdu, seeds, der_form, key_version, extra_signer, extra_key_known, post)| EventCase {
+            (pdu::pdu(), any::<[[u8; 32]; 3]>(), 0u8..3, "[A-Za-z0-9_]{1,6}", any::<bool>(), any::<bool>(), post(), prop_oneof![3 => Just(0u8), 1 => 1u8..5]).prop_map(|(pdu, seeds, der_form, key_version, extra_signer, extra_key_known, post, prior)| EventCase {
                 pdu,
                 seeds,
                 der_form,
@@ -344,11 +379,12 @@ pub fn run(ck: &mut Check) {
                 extra_signer,
                 extra_key_known,
                 post,
+                prior,
             })
         },
         oracle,
     );
-    for cls in ["v1-2", "v3-7", "v8-10", "v11", "multi_signer_requirement", "third_party_invite_no_sender_signature", "restricted_join_authoriser", "mut_kept_field", "mut_stripped_hashed_field", "mut_unsigned_only", "required_signature_missing", "redacted_copy_hash_invalid", "redacted_copy_hash_still_valid", "extra_signature_without_key"] {
+    for cls in ["v1-2", "v3-7", "v8-10", "v11", "multi_signer_requirement", "third_party_invite_no_sender_signature", "restricted_join_authoriser", "mut_kept_field", "mut_stripped_hashed_field", "mut_unsigned_only", "required_signature_missing", "redacted_copy_hash_invalid", "redacted_copy_hash_still_valid", "extra_signature_without_key", "event_carried_hashes_before_signing", "rehash_and_resign_after_edit"] {
         ck.floor("sign_verify_events", cls, 50);
     }
 }
